@@ -83,6 +83,10 @@ type Server struct {
 	// every connection is closed and new ones are refused until Revive.
 	CrashAfter int
 	Crashed    bool
+	// CountFn selects the requests that count towards CrashAfterCounted (Counted = how many were executed)
+	CountFn           func(name string) bool
+	Counted           int
+	CrashAfterCounted int
 
 	// PreExec, if set, is called under the lock before a request is executed
 	// (also for requests that are only queued inside MULTI).  A non-nil
@@ -131,7 +135,7 @@ type conn struct {
 }
 
 func New() *Server {
-	s := &Server{DBs: map[int]DB{}, CrashAfter: -1, conns: map[int]*conn{}, NowMs: 1_000_000, ReplDB: -1}
+	s := &Server{DBs: map[int]DB{}, CrashAfter: -1, CrashAfterCounted: -1, conns: map[int]*conn{}, NowMs: 1_000_000, ReplDB: -1}
 	return s
 }
 
@@ -189,6 +193,7 @@ func (s *Server) Revive() {
 	s.mu.Lock()
 	s.Crashed = false
 	s.CrashAfter = -1
+	s.CrashAfterCounted = -1
 	s.mu.Unlock()
 }
 
@@ -246,6 +251,15 @@ func (s *Server) serve(c *conn) {
 			s.crashLocked()
 			s.mu.Unlock()
 			return
+		}
+		if s.CountFn != nil && s.CountFn(name) {
+			// a counted request (the harness counts writes) beyond the limit is not executed: the server dies before it
+			if s.CrashAfterCounted >= 0 && s.Counted >= s.CrashAfterCounted {
+				s.crashLocked()
+				s.mu.Unlock()
+				return
+			}
+			s.Counted++
 		}
 		gseq := int64(0)
 		if s.Cluster != nil {
@@ -485,6 +499,79 @@ func (s *Server) RecvCount() int {
 	s.mu.Lock()
 	defer s.mu.Unlock()
 	return s.Recv
+}
+
+// SetCrashAfterCounted: the server dies instead of executing the (k+1)-th request selected by CountFn from now on (k < 0: off)
+func (s *Server) SetCrashAfterCounted(k int) {
+	s.mu.Lock()
+	s.Counted = 0
+	s.CrashAfterCounted = k
+	s.mu.Unlock()
+}
+
+func (s *Server) CountedCount() int {
+	s.mu.Lock()
+	defer s.mu.Unlock()
+	return s.Counted
+}
+
+func cloneBytes(b []byte) []byte {
+	if b == nil {
+		return nil
+	}
+	return append([]byte{}, b...)
+}
+
+// SnapshotDBs returns a deep copy of the keyspace (string, hash, list, set and sorted set values; others by reference)
+func (s *Server) SnapshotDBs() map[int]DB {
+	s.mu.Lock()
+	defer s.mu.Unlock()
+	return cloneDBs(s.DBs)
+}
+
+// RestoreDBs replaces the keyspace by a deep copy of snap
+func (s *Server) RestoreDBs(snap map[int]DB) {
+	s.mu.Lock()
+	defer s.mu.Unlock()
+	s.DBs = cloneDBs(snap)
+}
+
+func cloneDBs(in map[int]DB) map[int]DB {
+	out := map[int]DB{}
+	for n, d := range in {
+		nd := DB{}
+		for k, v := range d {
+			c := *v
+			c.Str = cloneBytes(v.Str)
+			if v.Hash != nil {
+				c.Hash = map[string][]byte{}
+				for f, x := range v.Hash {
+					c.Hash[f] = cloneBytes(x)
+				}
+			}
+			if v.List != nil {
+				c.List = make([][]byte, len(v.List))
+				for i, x := range v.List {
+					c.List[i] = cloneBytes(x)
+				}
+			}
+			if v.Set != nil {
+				c.Set = map[string]struct{}{}
+				for m := range v.Set {
+					c.Set[m] = struct{}{}
+				}
+			}
+			if v.ZSet != nil {
+				c.ZSet = map[string]float64{}
+				for m, sc := range v.ZSet {
+					c.ZSet[m] = sc
+				}
+			}
+			nd[k] = &c
+		}
+		out[n] = nd
+	}
+	return out
 }
 
 func (s *Server) SetCrashAfter(k int) {
